@@ -593,6 +593,11 @@ def gen_helper_cases(ctx):
         cases.append(mockc(S, [rng.choice(["pair", "none", "triple"]) for _ in range(S)]))
     for _ in range(60 if ctx.thorough else 10):
         cases.append(pool("fake", rng.randint(41, 300), rng.randint(1, 64)))
+    # large batches for every helper (sizes around 256 / 512 / 1024 and not a multiple of them): every job still runs exactly once
+    for S in ([257, 300, 511, 513, 700, 1025, 1500] if ctx.thorough else [rng.choice([257, 300]), rng.choice([513, 700, 1025])]):
+        cases.append(executor("fake", S, rng.choice([1, 3, 8, None])))
+        cases.append(pool("fake", S, rng.choice([1, 4, 9, 15])))
+        cases.append(mockc(S))
     # real worker processes
     real_S = list(range(0, 41)) if ctx.thorough else [0, 1, 2, 3, 4, 5, 7, 9, 12, 13, 16, 24, 25, 33, 40]
     for S in real_S:
